@@ -14,6 +14,10 @@ var ReadHook func(fd int, n int, err error)
 // SO_ERROR value (VFD.SoError).
 var ConnectHook func(fd int, sa syscall.Sockaddr)
 
+// CtlAfterCloseEBADF makes epoll_ctl on a virtual descriptor that was already closed fail with EBADF, as the kernel
+// does (opt-in, so that harnesses written before it keep their epoll_ctl logs).
+var CtlAfterCloseEBADF bool
+
 // Adopt registers an existing descriptor as virtual (the descriptor stays open and valid, so
 // Close works and the number cannot be reused while the conn lives).
 func Adopt(fd int) *VFD {
